@@ -9,7 +9,7 @@
    outcomes (DESIGN.md, C03). *)
 From Coq Require Import ZArith List Bool.
 From Coq Require String.
-Require Import PyLib SuiteTypes SuiteParser Crypto KeySchedule Packet Reassembly Decryptor TlsSession Main C04P C03P QuicDemuxP QuicTotalP TlsTotalP.
+Require Import PyLib SuiteTypes SuiteParser Crypto KeySchedule Packet Reassembly Decryptor TlsSession Main C04P C03P QuicDemuxP QuicTotalP TlsTotalP OutputBuilder BuilderP BuilderTotalP.
 Import ListNotations.
 Open Scope Z_scope.
 
@@ -88,3 +88,28 @@ Print Assumptions C03_tls_replay_total.
 Theorem C03_tls_record_total : forall C tbl parts keylog s r srv, exists x, handle_tls_record C tbl parts keylog s r srv = Ok x.
 Proof. exact tls_record_total. Qed.
 Print Assumptions C03_tls_record_total.
+
+(* ---------------- the output phase ---------------- *)
+(* Every record cut from a direction's reassembled buffer was carried by at least one input packet (its metadata is not empty); every
+   entry a session exports for a record carries that record; and OutputBuilder.build never raises on entries whose records have
+   carriers: no division by zero in the split, never short of time stamps.  Together: whatever a session makes of such records can be
+   built into a conversation.  (What can still raise behind the builder is scapy's serialisation, for 2^32 bytes in a direction or a
+   plaintext beyond 65 495 bytes: the hypotheses of C06_conversation / C06_tcp_checksum, named in DESIGN.md.) *)
+Theorem C03_records_have_carriers : forall b, let d := concat (map p_data b) in bytes_ok d ->
+  forall fuel i recs, 0 <= i -> cut fuel d (ranges b 0) i = Ok recs -> Forall (fun r => r_meta r <> []) recs.
+Proof. exact cut_records_have_carriers. Qed.
+Print Assumptions C03_records_have_carriers.
+
+Theorem C03_entries_keep_record : forall C tbl parts keylog s r srv s' out,
+  handle_tls_record C tbl parts keylog s r srv = Ok (s', out) -> Forall (fun e => te_record e = r) out.
+Proof. exact entries_keep_record. Qed.
+Print Assumptions C03_entries_keep_record.
+
+Theorem C03_builder_total : forall t, has_meta t -> exists segs, build t = Ok segs.
+Proof. exact build_total. Qed.
+Print Assumptions C03_builder_total.
+
+Theorem C03_session_output_builds : forall C tbl parts keylog rs s s' out, Forall (fun x : bool * tls_record => r_meta (snd x) <> []) rs ->
+  C01SessionP.session_run C tbl parts keylog s rs = Ok (s', out) -> exists segs, build out = Ok segs.
+Proof. exact session_output_builds. Qed.
+Print Assumptions C03_session_output_builds.
